@@ -2994,6 +2994,7 @@ FROM (
                 measure_cols=ds.get_measures_names(),
                 output_mode=node.output.value if node.output else "invalid",
                 viral_comps=viral_comps,
+                error_level_type=self._error_level_sql_type(rules),
             )
             for rule in rules
         ]
@@ -3031,6 +3032,7 @@ FROM (
         measure_cols: List[str],
         output_mode: str,
         viral_comps: Optional[List[Any]] = None,
+        error_level_type: str = "VARCHAR",
     ) -> str:
         """Build SQL for a single datapoint rule."""
         rule_node = rule.rule
@@ -3052,8 +3054,8 @@ FROM (
             bool_expr = f"({then_expr})"
 
         rule_name = rule.name or ""
-        ec_sql = self._error_code_sql(rule.erCode)
-        el_sql = self._error_code_sql(rule.erLevel)
+        ec_sql = f"CAST({self._error_code_sql(rule.erCode)} AS VARCHAR)"
+        el_sql = f"CAST({self._error_code_sql(rule.erLevel)} AS {error_level_type})"
         select_parts = [quote_name(c) for c in id_cols + measure_cols]
         viral_parts = [quote_name(comp.name) for comp in viral_comps or []]
         if output_mode == "invalid":
@@ -3267,6 +3269,7 @@ FROM (
                 mode=mode,
                 output=output,
                 cond_mapping=cond_mapping,
+                error_level_type=self._error_level_sql_type([p.rule for p in parsed_rules]),
             )
             for p in parsed_rules
         ]
@@ -3344,6 +3347,7 @@ FROM (
         mode: str,
         output: str,
         cond_mapping: Dict[str, str],
+        error_level_type: str = "VARCHAR",
     ) -> str:
         """Generate a SELECT for a single check_hierarchy rule from the pivot CTE."""
         rule = parsed.rule
@@ -3380,11 +3384,9 @@ FROM (
         inner_where_clause = f" WHERE {' AND '.join(inner_where)}" if inner_where else ""
         inner_sql = f"SELECT {', '.join(inner_cols)} FROM _pivot{inner_where_clause}"
 
-        ec_sql = self._error_code_sql(rule.erCode)
-        el_sql = self._error_code_sql(rule.erLevel)
-        el_null = (
-            "CAST(NULL AS DOUBLE)" if self._is_numeric(rule.erLevel) else "CAST(NULL AS VARCHAR)"
-        )
+        ec_sql = f"CAST({self._error_code_sql(rule.erCode)} AS VARCHAR)"
+        el_sql = f"CAST({self._error_code_sql(rule.erLevel)} AS {error_level_type})"
+        el_null = f"CAST(NULL AS {error_level_type})"
 
         q_rc = quote_name(rule_comp)
         q_m = quote_name(measure)
@@ -3734,6 +3736,20 @@ FROM (
     def _error_code_sql(self, value: Any) -> str:
         """Convert an errorcode value to a SQL literal."""
         return "CAST(NULL AS VARCHAR)" if value is None else self._to_sql_literal(value=value)
+
+    @staticmethod
+    def _error_level_sql_type(rules: List[Any]) -> str:
+        """SQL type of a ruleset's errorlevel column (same decision as Validation.validate).
+
+        Every rule's errorlevel (NULL included) is cast to it, so the UNION ALL of the
+        per-rule SELECTs keeps the type semantic analysis gave the component.
+        """
+        levels = [rule.erLevel for rule in rules if rule.erLevel is not None]
+        if levels and all(isinstance(level, bool) for level in levels):
+            return "BOOLEAN"
+        if all(isinstance(level, int) for level in levels):
+            return "DOUBLE"
+        return "VARCHAR"
 
     def visit_Validation(self, node: AST.Validation) -> str:
         """Visit CHECK validation operator."""
